@@ -487,6 +487,9 @@ impl Decompressor {
         // Decompress if needed; metadata holds original length for packed format
         let decompressed = if data.is_empty() {
             Vec::new()
+        } else if metadata == 0 {
+            // Stored raw (no marker byte, not compressed), as in get_segment
+            data
         } else if data.last() == Some(&0) {
             // Plain ZSTD stream with marker 0
             data.pop();
